@@ -10,7 +10,7 @@ history whose memtable is non-empty.  Oracle: reference map with deletion (c13_m
 equal the reference at every checkpoint (after the acknowledged drop, after the continuation, after restart).
 """
 import concurrent.futures as cf
-import glob, hashlib, json, os, shutil, sys, threading, time
+import glob, hashlib, json, multiprocessing, os, shutil, sys, threading, time
 
 sys.path.insert(0, os.path.dirname(os.path.dirname(os.path.abspath(__file__))))
 import checklib, blackbox
@@ -68,6 +68,7 @@ BEING_DELETED = __import__('re').compile(r'being delete', __import__('re').I)
 BARRIER_TIMEOUT = 240  # generous: on the shared build machine the whole server process was seen frozen for minutes
 COMPACT_TIMEOUT = 420
 QUIET_BEFORE_KILL = 4.0
+START_WAIT = 180  # a start with several hundred databases on the loaded build machine
 PAD = 5000  # > duration of the longest run in seconds
 
 
@@ -88,6 +89,13 @@ class Server(blackbox.Server):
                 raise
 
 
+_T0 = time.time()
+
+
+def tlog(msg):
+    checklib.log("%s [t+%ds]" % (msg, time.time() - _T0))
+
+
 class Abandon(Exception):
     pass
 
@@ -101,10 +109,13 @@ class Run:
         self.db = M.dbname(h)
         self.dbb = self.db + "b"
         self.m, self.n = M.mname(h), M.nname(h)  # target measurement, untouched bystander
-        self.dk = M.DROPS[h["drop"]]["kind"]
-        self.trp = M.RP2 if self.dk == "rp" else M.DEF_RP  # retention policy of the target measurement
+        self.two = bool(h.get("two"))
+        # two-drop histories: the kind of the last executed drop; target under rp2 so that every statement can be either drop
+        self.dk = None if self.two else M.DROPS[h["drop"]]["kind"]
+        self.trp = M.RP2 if (self.two or self.dk == "rp") else M.DEF_RP  # retention policy of the target measurement
         self.key = M.hkey(h)
         self.removed = 0
+        self.drops_done = []  # [(n, kind)] acknowledged drops
         self.log = []  # executed statements (for the violation detail)
         self.offset = 0
         self.segs = M.segments(h)
@@ -184,8 +195,8 @@ class Driver:
                 # cold: the barrier after the initial load asks no tag-filter query, so that the index's tag-filter
                 # cache is cold at the drop unless the history itself reads before the drop (pre = 1)
                 full = (db, rp, mst) == (r.db, r.trp, r.m) and not cold
-                for name, q, kind, params in M.shapes_for(rp, mst, full):
-                    exp = M.expected(r.ref, db, rp, mst, kind, params)
+                for name, q, kind, params in self.shapes(r, rp, mst, full):
+                    exp = self.bounds(r, db, rp, mst, kind, params)[0]
                     if exp == M.empty_of(kind):
                         continue
                     st, js = self.srv.query(q, db=db)
@@ -216,8 +227,8 @@ class Driver:
         db, rp, mst, name, got = missing
         covered = []
         full = (db, rp, mst) == (r.db, r.trp, r.m) and not cold
-        for name2, q, kind, params in M.shapes_for(rp, mst, full):
-            exp = M.expected(r.ref, db, rp, mst, kind, params)
+        for name2, q, kind, params in self.shapes(r, rp, mst, full):
+            exp = self.bounds(r, db, rp, mst, kind, params)[0]
             if name2 == name or exp == M.empty_of(kind):
                 continue
             st, js = self.srv.query(q, db=db)
@@ -235,7 +246,26 @@ class Driver:
             raise Abandon()
         raise blackbox.ToolError("visibility barrier timed out for history %s: %s" % (r.key, missing))
 
+    @staticmethod
+    def shapes(r, rp, mst, full):
+        # two-drop histories have the target measurement under two retention policies: the target's listings name the policy
+        return M.shapes_for(rp, mst, full, qualified=r.two and rp != M.DEF_RP)
+
+    @staticmethod
+    def bounds(r, db, rp, mst, kind, params):
+        """(lower, upper) expectation. They differ only for the listings of a two-drop history, whose measurement exists under
+        two retention policies: the statement does not say whether `SHOW ... FROM m` spans the policies of the database (the
+        server answers by physical measurement name, name + version, which spans them exactly while the versions coincide), so
+        anything from "the series under the named (or default) policy" to "the series under every policy" is accepted. Dropped
+        series are in neither bound."""
+        hi = M.expected(r.ref, db, rp, mst, kind, params)
+        if r.two and kind in M.LISTINGS:
+            return M.expected(r.ref, db, rp, mst, kind, params, scope="rp"), hi
+        return hi, hi
+
     def containers(self, r):
+        if r.two:
+            return [(db, rp, mst) for _, db, rp, mst, _ in M.containers_two(r.h)]
         c = [(r.db, r.trp, r.m), (r.db, M.DEF_RP, r.n)]
         if r.dk == "rp":
             c.append((r.db, M.DEF_RP, r.m))
@@ -248,14 +278,19 @@ class Driver:
         if r.db != M.SHARED_DB:
             self.ddl(r, 'create database "%s"' % r.db)
             r.ref.create_db(r.db)
-        if r.dk == "rp":
+        if r.dk == "rp" or r.two:
             self.ddl(r, 'create retention policy "%s" on "%s" duration 0s replication 1' % (M.RP2, r.db))
             r.ref.create_rp(r.db, M.RP2)
-        if r.dk == "database":
+        if r.dk == "database" or (r.two and M.uses_otherdb(r.h)):
             self.ddl(r, 'create database "%s"' % r.dbb)
             r.ref.create_db(r.dbb)
 
     def do_load(self, r, tis):
+        if r.two:
+            for db, rp, rows in M.load_rows(r.h, tis):
+                self.write(r, db, rp, rows)
+            self.visible(r, self.containers(r), cold=True)
+            return
         rows = []
         for mst, off in ((r.m, 0), (r.n, 1000)):
             for host in "abc":
@@ -292,38 +327,65 @@ class Driver:
         self.write(r, r.db, r.trp, rows, recreate=recreate)
         self.visible(r, [(r.db, r.trp, r.m)])
 
-    def drop_sql(self, r):
-        d = M.DROPS[r.h["drop"]]
-        if r.dk == "series":
+    def do_recreate(self, r, which):
+        """re-creation step of a two-drop history: re-creates what the drops removed (database, retention policy; the
+        measurement by writing) and writes into the target; see c13_model.rc_rows"""
+        recreate = []
+        if r.db not in r.ref.dbs:
+            recreate.append('create database "%s"' % r.db)
+            r.ref.create_db(r.db)
+        if not r.ref.container_exists(r.db, r.trp):
+            recreate.append('create retention policy "%s" on "%s" duration 0s replication 1' % (r.trp, r.db))
+            r.ref.create_rp(r.db, r.trp)
+        for q in recreate:
+            self.ddl(r, q)
+        self.write(r, r.db, r.trp, M.rc_rows(r.h, which), recreate=recreate)
+        self.visible(r, [(r.db, r.trp, r.m)])
+
+    def drop_sql(self, r, n=1):
+        d = M.drop_spec(r.h, n)
+        if d["kind"] == "series":
             return 'drop series from "%s"' % r.m + (" where " + d["where"] if d["where"] else "")
-        if r.dk == "measurement":
+        if d["kind"] == "measurement":
             return 'drop measurement "%s"' % r.m
-        if r.dk == "rp":
+        if d["kind"] == "rp":
             return 'drop retention policy "%s" on "%s"' % (M.RP2, r.db)
         return 'drop database "%s"' % r.db
 
-    def do_drop(self, r):
-        q = self.drop_sql(r)
+    def do_drop(self, r, n=1):
+        q = self.drop_sql(r, n)
         err = self.ddl(r, q, db=r.db, must=False)
         if err:
             # not acknowledged: the statement's precondition does not hold; counted, reference unchanged
             self.rep.count("drops_not_acknowledged", 1)
             self.rep.note("drop answered with an error (not acknowledged, reference unchanged): %s -> %s" % (q, err))
+            if r.two:
+                # the pruning rule of the two-drop product only admits drops whose object exists: an error is a wrong answer
+                self.rep.violation("admissible_drop_refused", "%s :: drop%d" % (r.key, n),
+                                   "history %s: %s -> %s\n  statements: %s" % (
+                                       r.key, q, err, " | ".join(x for x in r.log if not x.startswith("write"))), dict(r.h))
+                r.failed = True
             return
         self.rep.count("drops_acknowledged", 1)
-        d = M.DROPS[r.h["drop"]]
-        before = sum(len(s) for s in r.ref.data.values())
-        if r.dk == "series":
-            r.ref.drop_series(r.db, r.m, d["fn"])
-        elif r.dk == "measurement":
-            r.ref.drop_measurement(r.db, r.m)
-        elif r.dk == "rp":
-            r.ref.drop_rp(r.db, M.RP2)
+        d = M.drop_spec(r.h, n)
+        removed = r.ref.apply_drop(d, r.db, M.RP2, r.m, tag=n)
+        r.drops_done.append((n, d["kind"]))
+        if r.two:
+            if n and (removed > 0) != (M.simulate(r.h)[n][1] > 0):
+                raise blackbox.ToolError("history %s: drop %d removes %d series in the driver's reference, the enumeration "
+                                         "said otherwise" % (r.key, n, removed))
+            r.removed += removed
         else:
-            r.ref.drop_db(r.db)
-        r.removed = before - sum(len(s) for s in r.ref.data.values())
+            r.removed = removed
 
     def do_check(self, r, label):
+        if r.two:
+            for prefix, db, rp, mst, full in M.containers_two(r.h):
+                if label == "after_recreate" and not full:
+                    continue  # the re-creation step only writes into the target; the bystanders are read again after the next drop
+                for name, q, kind, params in self.shapes(r, rp, mst, full):
+                    self.one_read(r, label, prefix + name, q, kind, params, db, rp, mst)
+            return
         targets = [("", r.db, r.trp, r.m, True), ("bystander:", r.db, M.DEF_RP, r.n, False)]
         if r.dk == "rp":
             targets.append(("autogen:", r.db, M.DEF_RP, r.m, False))
@@ -334,7 +396,7 @@ class Driver:
                 self.one_read(r, label, prefix + name, q, kind, params, db, rp, mst)
 
     def one_read(self, r, label, name, q, kind, params, db, rp, mst):
-        exp = M.expected(r.ref, db, rp, mst, kind, params)
+        lo, exp = self.bounds(r, db, rp, mst, kind, params)
         st, js = self.srv.query(q, db=db)
         ok, got = M.normalise(kind, st, js)
         self.rep.evaluation()
@@ -343,28 +405,31 @@ class Driver:
             self.rep.distinct(r.key + "|" + name)
         if ok == "error":
             gone = (not r.ref.container_exists(db, rp)) or ((db, rp, mst) not in r.ref.msts)
-            if gone and exp == M.empty_of(kind) and (M.NOT_FOUND.search(got) or BEING_DELETED.search(got)):
+            if gone and lo == M.empty_of(kind) and (M.NOT_FOUND.search(got) or BEING_DELETED.search(got)):
                 self.rep.count("not_found_error_read_as_empty", 1)
                 return
             kindv = "read_error"
         elif got == exp:
             return
-        elif kind == "tagkeys" and set(exp) <= set(got) <= r.ref.schema_tag_keys(db, mst):
+        elif lo != exp and set(lo) <= set(got) <= set(exp):
+            self.rep.count("listing_between_policy_and_database_scope_accepted", 1)
+            return
+        elif kind == "tagkeys" and set(lo) <= set(got) <= r.ref.schema_tag_keys(db, mst):
             # SHOW TAG KEYS without a condition is answered from the schema of the (still existing) measurement;
             # the statement does not say that a schema shrinks when series are dropped
             self.rep.count("tag_keys_from_schema_accepted", 1)
             return
         else:
-            kindv = self.classify(r, label, name, kind, params, db, rp, mst, exp, got)
+            kindv = (self.classify_two if r.two else self.classify)(r, label, name, kind, params, db, rp, mst, exp, got)
             if kindv == "dropped_rp_still_returned" and kind in ("series", "tagkeys", "tagvalues"):
-                kindv = self.rp_listing(q, db, kind, exp)
+                kindv = self.rp_listing(q, db, kind, lo, exp)
         r.failed = True
         detail = ("history %s (db %s) checkpoint %s\n  query: %s\n  expected: %s\n  got:      %s\n  statements: %s" % (
             r.key, db, label, q, json.dumps(M.jsonable(exp)), json.dumps(M.jsonable(got)) if ok == "ok" else got,
             " | ".join(x for x in r.log if not x.startswith("write"))))
         self.rep.violation(kindv, "%s :: %s :: %s" % (r.key, label, name), detail, dict(r.h))
 
-    def rp_listing(self, q, db, kind, exp):
+    def rp_listing(self, q, db, kind, lo, exp):
         """The database-wide listings still show the series of a retention policy whose drop was acknowledged. Already
         a violation; this only tells the transient case (gone once the store has carried out the delete) from a
         permanent one, so that the two get different kinds."""
@@ -372,7 +437,9 @@ class Driver:
         while time.time() - t0 < 30:
             st, js = self.srv.query(q, db=db)
             ok, got = M.normalise(kind, st, js)
-            if ok == "ok" and got == exp:
+            if ok == "ok" and set(lo) <= set(got) <= set(exp):
+                return "dropped_rp_listed_until_store_delete_done"
+            if ok == "error" and lo == M.empty_of(kind) and (M.NOT_FOUND.search(got) or BEING_DELETED.search(got)):
                 return "dropped_rp_listed_until_store_delete_done"
             time.sleep(0.2)
         return "dropped_rp_still_listed_after_30s"
@@ -387,7 +454,7 @@ class Driver:
                 g_mem = M.expected(r.ref, db, rp, mst, kind, params, with_ghost="mem")
                 if after_restart and g_mem != exp and got == g_mem:
                     return "dropped_series_unflushed_rows_back_after_restart"
-                if got == g_all and after_restart and r.h["cont"] == "kill_now":
+                if got == g_all and after_restart and r.h.get("cont") == "kill_now":
                     # the whole drop is undone by the kill (every read shape returns the buried series again); checked before
                     # the scan-specific names below, which describe the same rows for the unfiltered shapes
                     return "drop_series_lost_by_kill_right_after_ack"
@@ -398,7 +465,7 @@ class Driver:
                     # a negative tag filter they do not satisfy
                     return "dropped_series_returned_by_unfiltered_scan"
                 if got == g_all:
-                    if after_restart and r.h["cont"] == "kill_now":
+                    if after_restart and r.h.get("cont") == "kill_now":
                         return "drop_series_lost_by_kill_right_after_ack"
                     if name in M.UNFILTERED:
                         return "dropped_series_returned_by_unfiltered_scan"
@@ -407,6 +474,27 @@ class Driver:
                     return "dropped_series_back_after_restart" if after_restart else "dropped_series_still_returned"
             elif got == g_all:
                 return "dropped_%s_%s" % (r.dk, "back_after_restart" if after_restart else "still_returned")
+        if self.subset(got, exp, kind):
+            return "data_lost"
+        return "read_mismatch"
+
+    def classify_two(self, r, label, name, kind, params, db, rp, mst, exp, got):
+        """Two-drop histories: names the mismatch by which drop's buried rows explain it (never decides pass/fail)."""
+        after_restart = label.startswith("after_restart")
+        last_n, last_kind = r.drops_done[-1] if r.drops_done else (None, None)
+
+        def ex(pred):
+            return M.expected(r.ref, db, rp, mst, kind, params, with_ghost=pred)
+        if after_restart and got == ex(lambda f: f.get("_mem") and f.get("_by") == "series") != exp:
+            return "dropped_series_unflushed_rows_back_after_restart"
+        if last_n is not None and got == ex(lambda f: f.get("_n") == last_n):
+            # what the most recent drop removed is (still / again) returned
+            return "dropped_%s_%s" % (last_kind, "back_after_restart" if after_restart else "still_returned")
+        for n, k in reversed(r.drops_done[:-1]):
+            if got == ex(lambda f, n=n: f.get("_n") == n):
+                return "dropped_%s_reappeared_after_later_steps" % k
+        if r.ref.ghost and got == ex("all"):
+            return "dropped_data_back_after_restart" if after_restart else "dropped_data_still_returned"
         if self.subset(got, exp, kind):
             return "data_lost"
         return "read_mismatch"
@@ -438,6 +526,13 @@ class Driver:
 
     def _run_segment(self, r, seg):
         for tok in seg:
+            t0 = time.time()
+            self._run_token(r, tok)
+            self.rep.count("driver_ms_" + tok[0].lower() + (str(tok[1]) if tok[0] in ("DROP", "RC") and len(tok) > 1 else ""),
+                           int((time.time() - t0) * 1000))
+
+    def _run_token(self, r, tok):
+        if True:
             if tok[0] == "SETUP":
                 self.do_setup(r)
             elif tok[0] == "W":
@@ -445,7 +540,9 @@ class Driver:
             elif tok[0] == "CHECK":
                 self.do_check(r, tok[1])
             elif tok[0] == "DROP":
-                self.do_drop(r)
+                self.do_drop(r, tok[1] if len(tok) > 1 else 1)
+            elif tok[0] == "RC":
+                self.do_recreate(r, tok[1])
             elif tok[0] == "RW":
                 self.do_rewrite(r)
             elif tok[0] == "RW2":
@@ -569,15 +666,39 @@ class Driver:
         self.ddl(None, "drop series from padx where i = 'x'", db=M.SHARED_DB)
 
     def execute(self, S, disable_compaction, special):
+        self.disable_compaction = disable_compaction
         self.execute_histories(S, disable_compaction)
         if "crossdb" in special:
             # last: it leaves a deleted-id set with the smallest series id in the pooled search objects, which (on a
             # tree with that defect) would hide series of the small per-history databases
             self.crossdb()
 
+    def reopen_phase(self):
+        """Layout `reopened`: the histories with that layout load their data first, then one global flush + kill -9 + start,
+        before any other history has begun (so the restart is nobody's foreign event)."""
+        rs = [r for r in self.runs if M.pre_tokens(r.h)]
+        if not rs:
+            return
+        tlog("C13 server %s reopen phase: %d histories" % (self.srv.name, len(rs)))
+        self.pool(lambda r: self.run_segment(r, M.pre_tokens(r.h)), rs)
+        st, body = self.srv.flush()
+        if st != 200:
+            raise blackbox.ToolError("flush failed: %s %s" % (st, body[:200]))
+        self.rep.count("global_flushes", 1)
+        for r in self.runs:
+            r.ref.flushed()
+        self.srv.kill9()
+        self.srv.start(wait_s=START_WAIT)
+        if self.disable_compaction:
+            self.srv.ctrl("compen", allshards="false")
+            self.srv.ctrl("merge", allshards="false")
+        self.rep.count("restarts", 1)
+        self.pool(lambda r: self.visible(r, self.containers(r), cold=True), rs)
+
     def execute_histories(self, S, disable_compaction):
         """S = barrier string of the server; every run is aligned on it (rightmost match; suffix if it ends dirty)."""
-        if self.runs:
+        self.reopen_phase()
+        if any(r.db == M.SHARED_DB for r in self.runs):
             self.prepare()
         for r in self.runs:
             s = M.barrier_string(r.h)
@@ -587,7 +708,7 @@ class Driver:
             r.offset = o
         for p in range(len(S) + 1):
             todo = [(r, r.segs[p - r.offset]) for r in self.runs if r.offset <= p <= r.offset + len(r.segs) - 1]
-            checklib.log("C13 server %s phase %d/%d: %d histories" % (self.srv.name, p, len(S), len(todo)))
+            tlog("C13 server %s phase %d/%d: %d histories" % (self.srv.name, p, len(S), len(todo)))
             self.pool(lambda x: self.run_segment(x[0], x[1]), todo)
             if disable_compaction:
                 self.srv.ctrl("compen", allshards="false")
@@ -605,7 +726,7 @@ class Driver:
         rs = [r for r in self.runs if r.h["restart"]]
         if not rs:
             return
-        late = [r for r in rs if r.h["cont"] == "kill_now" and not r.abandoned]
+        late = [r for r in rs if r.h.get("cont") == "kill_now" and not r.abandoned]
         if late:
             # scheduling device, not an oracle: every drop issued so far is older than the index flush tick when the
             # kill comes, the drops issued now are not
@@ -616,13 +737,13 @@ class Driver:
             if label == "after_restart2":
                 self.srv.stop()  # second round: clean shutdown (memtables flushed on the way down) instead of kill -9
             self.srv.kill9()
-            self.srv.start()
+            self.srv.start(wait_s=START_WAIT)
             if disable_compaction:
                 # the switches are not persistent; a merge of out-of-order files cut by the next kill -9 is C03's subject
                 self.srv.ctrl("compen", allshards="false")
                 self.srv.ctrl("merge", allshards="false")
             self.rep.count("restarts", 1)
-            checklib.log("C13 server %s restarted (%s): %d histories" % (self.srv.name, label, len(rs)))
+            tlog("C13 server %s restarted (%s): %d histories" % (self.srv.name, label, len(rs)))
 
             def after(r, label=label):
                 if r.abandoned:
@@ -682,6 +803,8 @@ SRV_EXTRA = {
     "B": {"coordinator": LIMITS, "data.memtable": {"write-cold-duration": "1h", "force-snapShot-duration": "1h"},
           "data.compact": {"compact-full-write-cold-duration": "2m"}},
 }
+SRV_EXTRA["C"] = SRV_EXTRA["A"]  # two-drop histories (a server of their own: their reopen barrier is a restart)
+SRV_EXTRA["D"] = SRV_EXTRA["A"]
 
 
 def run_server(tier, name, hs, scratch, rep):
@@ -695,7 +818,7 @@ def run_server(tier, name, hs, scratch, rep):
         runs = [Run(h) for h in hs if not h.get("special")]
         drv = Driver(tier, srv, runs, rep)
         S = max([M.barrier_string(r.h) for r in runs] or [""], key=len)
-        drv.execute(S, disable_compaction=(name == "A"), special=special)
+        drv.execute(S, disable_compaction=(name != "B"), special=special)
         rep.count("histories", len(runs))
         rep.count("histories_with_removal", sum(1 for r in runs if r.removed > 0))
         if Server.timeouts:
@@ -710,6 +833,23 @@ def run_server(tier, name, hs, scratch, rep):
             shutil.copytree(os.path.join(srv.dir, "logs"), keep)
         except OSError:
             pass
+
+
+def server_process(tier, name, hs, scratch, outpath):
+    """body of one driver process: all histories of one server; the report goes to a file"""
+    rep = Rep()
+    err = None
+    try:
+        run_server(tier, name, hs, scratch, rep)
+    except blackbox.ToolError as e:
+        err = str(e)
+    except Exception as e:  # harness bug: tool error, never a verdict
+        import traceback
+        err = "%s: %s\n%s" % (type(e).__name__, e, traceback.format_exc())
+    d = dict(rep.d)
+    d["_distinct"] = sorted(d["_distinct"])
+    with open(outpath, "w") as fh:
+        json.dump(dict(rep=d, all=rep.all, err=err), fh, default=str)
 
 
 def run(tier, replay):
@@ -732,34 +872,59 @@ def run(tier, replay):
             print("replay: %s" % ("still fails" if rep.d["n_violations"] else "passes"))
             return 1 if rep.d["n_violations"] else 0
         hs = M.enumerate_histories(tier)
+        if os.environ.get("C13_ONLY"):  # development aid: only the histories whose key matches (evidence is then partial)
+            import re
+            hs = [h for h in hs if not h.get("special") and re.search(os.environ["C13_ONLY"], M.hkey(h))]
+            rep.d["exhaustive"] = False
+            rep.note("C13_ONLY=%s: partial run" % os.environ["C13_ONLY"])
         drv0 = Driver(tier, None, [], rep)
-        rep.d["samples"] = [dict(h, key=M.hkey(h), database=M.dbname(h), measurement=M.mname(h), drop_statement=drv0.drop_sql(Run(h)),
-                                 tokens=M.tokens(h)) for h in hs[:: max(1, len(hs) // 10)] if not h.get("special")][:10]
+
+        def sample(h):
+            r = Run(h)
+            d = dict(h, key=M.hkey(h), database=M.dbname(h), measurement=M.mname(h), tokens=M.pre_tokens(h) + M.tokens(h))
+            if h.get("two"):
+                d["drop_statements"] = [drv0.drop_sql(r, 1), drv0.drop_sql(r, 2)]
+            else:
+                d["drop_statement"] = drv0.drop_sql(r)
+            return d
+        one = [h for h in hs if not h.get("special") and not h.get("two")]
+        two = [h for h in hs if h.get("two")]
+        rep.d["samples"] = ([sample(h) for h in one[:: max(1, len(one) // 6)]][:6] +
+                            [sample(h) for h in two[:: max(1, len(two) // 6)]][:6])
+        rep.count("histories_two_drops_enumerated", len(two))
+        rep.count("two_drop_statement_combinations", len(M.combos_two()))
         groups = {}
         for h in hs:
             groups.setdefault(h["srv"], []).append(h)
-        errs = []
-
-        def one(name):
+        # one process per server (the drivers are python threads; separate processes keep them off each other's GIL)
+        ctx = multiprocessing.get_context("fork")
+        procs = {}
+        for name in sorted(groups):
+            out = os.path.join(scratch, "report-%s.json" % name)
+            pr = ctx.Process(target=server_process, args=(tier, name, groups[name], scratch, out))
+            pr.start()
+            procs[name] = (pr, out)
+        errs, reports, allv = [], [rep.d], []
+        for name, (pr, out) in procs.items():
+            pr.join()
             try:
-                run_server(tier, name, groups[name], scratch, rep)
-            except blackbox.ToolError as e:
-                errs.append(str(e))
-            except Exception as e:  # harness bug: tool error, never a verdict
-                import traceback
-                errs.append("%s: %s\n%s" % (type(e).__name__, e, traceback.format_exc()))
-        ths = [threading.Thread(target=one, args=(n,)) for n in sorted(groups)]
-        for t in ths:
-            t.start()
-        for t in ths:
-            t.join()
+                o = json.load(open(out))
+            except (OSError, ValueError) as e:
+                errs.append("server %s: driver process ended without a report (exit %s): %s" % (name, pr.exitcode, e))
+                continue
+            if o["err"]:
+                errs.append(o["err"])
+            o["rep"]["_distinct"] = set(o["rep"]["_distinct"])
+            reports.append(o["rep"])
+            allv += o["all"]
         if errs:
             checklib.tool_error("; ".join(errs))
-        if rep.d["counters"].get("histories_abandoned_after_violation"):
-            rep.d["exhaustive"] = False
+        if any(r["counters"].get("histories_abandoned_after_violation") for r in reports):
+            for r in reports:
+                r["exhaustive"] = False
         with open(os.path.join(checklib.build_dir(CID), "violations-%s.json" % tier), "w") as fh:
-            json.dump(rep.all, fh, indent=1)
-        return checklib.finish(CID, tier, LEVEL, RULE, [rep.d], t0, ASSUMPTIONS)
+            json.dump(allv, fh, indent=1)
+        return checklib.finish(CID, tier, LEVEL, RULE, reports, t0, ASSUMPTIONS)
     finally:
         if os.environ.get("C13_KEEP"):
             checklib.log("C13_KEEP: scratch kept at " + scratch)
